@@ -879,3 +879,43 @@ def r_retself(text, ctx):
         raise LostAnchor(ctx.key + ": R-retself: body does not end in `self` or a chaining call")
     ctx.app("R-retself", "-> &mut Self ... self", "-> ()")
     return h2 + " {" + inner + "\n    }"
+
+
+def r_fold(text, ctx):
+    """R-fold: `X.iter().fold(true, |first, V| { if !first { SEP } BODY; false });`
+         ->   `let mut first = true; for V in it: X.iter() { if !first { SEP } BODY; first = false; }`
+       and    `X.iter().for_each(|P| { BODY });`  ->  `for P in it: X.iter() { BODY }`.
+    Closure desugaring only; refuses bodies containing return / ? / break / continue."""
+    n = 0
+    while True:
+        m = re.search(r"([A-Za-z_][A-Za-z0-9_\.#]*)\.iter\(\)\.(fold\(true, \|(first), ([a-z_]+)\| \{|for_each\(\|([^|]+)\| \{)", text)
+        if not m:
+            break
+        coll = m.group(1)
+        is_fold = m.group(3) is not None
+        var = m.group(4) if is_fold else m.group(5)
+        open_off = m.end() - 1
+        toks = rl.code_toks(rl.lex(text[open_off:]))
+        close = rl.match_close(toks, 0)
+        body = text[open_off + 1: open_off + toks[close].start]
+        after = text[open_off + toks[close].end:]
+        m2 = re.match(r"\s*\)\s*;", after)
+        if not m2:
+            raise Unsupported(ctx.key + ": R-fold: closure call is not a statement")
+        if re.search(r"\b(return|break|continue)\b|\?\s*;", body):
+            raise Unsupported(ctx.key + ": R-fold: closure body has non-local control flow")
+        n += 1
+        itn = "it%d" % n
+        if is_fold:
+            b2 = body.rstrip()
+            if not b2.endswith("false"):
+                raise Unsupported(ctx.key + ": R-fold: fold closure does not end in `false`")
+            b2 = b2[:-5].rstrip() + "\n            first = false;\n        "
+            new = "let mut first = true;\n        for %s in %s: %s.iter() {%s}" % (var, itn, coll, b2)
+        else:
+            new = "for %s in %s: %s.iter() {%s}" % (var.strip(), itn, coll, body)
+        ctx.app("R-fold", rl.norm_ws(text[m.start():open_off + toks[close].end + m2.end()])[:120], rl.norm_ws(new)[:120])
+        text = text[:m.start()] + new + after[m2.end():]
+    if n == 0:
+        raise LostAnchor(ctx.key + ": R-fold: no fold / for_each closure found")
+    return text
